@@ -109,4 +109,7 @@ def _other_rules(r: Any, spec: project.Spec) -> List[str]:
         lv = r.sample(['HIDDEN', 'PRIVATE', 'PUBLIC'], 2)
         rules.insert(r.randint(0, len(rules)), f'{lv[0]}:{full}')
         rules.append(f'{lv[1]}:{full}')
+    if len(rules) >= 2 and r.random() < .5:
+        # a rule repeated after rules that contradict it
+        rules.append(rules[r.randrange(len(rules) - 1)])
     return rules
